@@ -342,6 +342,43 @@ func RunCrashProgram(p *Program) *Result {
 			r.Ops++
 			w.phase = "idle"
 			w.restartLoop("crash."+s.Image, s.ImgSeed, false)
+		case "visit":
+			// another process opens the same database file, looks around and
+			// leaves again (hookaido mcp does that for every tool call)
+			r.Ops++
+			w.phase = "visit"
+			crashed := func() (c bool) {
+				defer func() {
+					if rec := recover(); rec != nil {
+						if _, ok := rec.(crashSentinel); ok {
+							c = true
+							return
+						}
+						panic(rec)
+					}
+				}()
+				st2, close2, err := openStore(w.Cfg, w.Clock, w.dbPath)
+				if err == nil {
+					_, _ = st2.Stats()
+					_, lerr := st2.ListMessages(queue.MessageListRequest{Limit: 5})
+					cerr := close2()
+					r.logf("visit by a second process -> list %s, close %s", errShort(lerr), errShort(cerr))
+					r.probe("crash.second_process_visit")
+				} else {
+					r.logf("visit by a second process -> open failed: %s", errShort(err))
+				}
+				if w.Disk.Dead() {
+					panic(crashSentinel{})
+				}
+				return false
+			}()
+			if crashed && w.pending != nil {
+				w.assume = nil
+				w.restartLoop(w.pending.Action, w.pending.ImgSeed, false)
+			} else if !crashed {
+				// the visit prunes like any listing; the model learns it from the next observation
+				w.observe("visit", false)
+			}
 		case "checkpoint":
 			r.Ops++
 			w.phase = "checkpoint"
@@ -454,7 +491,7 @@ func (w *CrashWorld) drain() {
 var crashWeights = map[string]int{
 	"enqueue": 30, "enqueue_batch": 10, "dequeue": 18, "advance": 8,
 	"ack": 8, "nack": 6, "dead": 4, "extend": 2, "ack_batch": 3, "nack_batch": 2, "dead_batch": 1,
-	"checkpoint": 5, "crash": 4, "stats": 1,
+	"checkpoint": 5, "crash": 4, "stats": 1, "visit": 3,
 }
 
 func GenCrashProgram(t *rapid.T) *Program {
